@@ -233,7 +233,7 @@ def step (line : String) : String :=
     | some segs => streamAll 1001 [] (mkSS segs) ""
     | none => "bad-op"
   | ["RFR", ds] =>
-    match parseSegs ds with
+    match (if ds == "none" then some [] else if ds == "-" then some [[]] else parseSegs ds) with
     | some ds =>
       let (_, outs) := ds.foldl (fun (acc : Fragment.St × List String) d =>
         let (st', o) := Fragment.reassemble 3600000 acc.1 0 d
